@@ -74,6 +74,10 @@ func walletRun(rng *rand.Rand, res *hx.Result, runNo int) ([]Event, error) {
 	rec.emit(Event{Op: "Reset", Fam: "tg", Lim: limMap(1, 0, 0, 0, func(p int) string { return "s1" }), Tag: fmt.Sprintf("wallet%d", runNo)})
 	mode := runNo % 3 // 0: Close while the goroutine works; 1: Close while it is idle; 2: Close at once
 	closed := make(chan struct{})
+	closed2 := make(chan struct{})
+	if mode != 0 {
+		close(closed2)
+	}
 	doClose := func() {
 		rec.emit(Event{Op: "StopCall"})
 		go func() { w.Close(); rec.emit(Event{Op: "StopReturn"}); close(closed) }()
@@ -86,10 +90,19 @@ func walletRun(rng *rand.Rand, res *hx.Result, runNo int) ([]Event, error) {
 		}
 		rec.emit(Event{Op: "ThAdd", P: "t1", OK: true})
 		doClose()
+		// a second Close while the first one waits: it must wait as well
+		time.Sleep(time.Duration(2+rng.Intn(5)) * time.Millisecond)
+		rec.emit(Event{Op: "Stop2Call"})
+		go func() { w.Close(); rec.emit(Event{Op: "Stop2Return"}); close(closed2) }()
 		time.Sleep(time.Duration(20+rng.Intn(40)) * time.Millisecond)
 		select {
 		case <-closed:
 			res.Mismatch("driver:wallet:close-returned-early", fmt.Sprintf("wallet run %d: Close returned while the rebroadcast goroutine was inside SingleAddressStore.BroadcastedSets", runNo), nil)
+		default:
+		}
+		select {
+		case <-closed2:
+			res.Mismatch("driver:wallet:second-close-returned-early", fmt.Sprintf("wallet run %d: a second Close, called while the first was waiting, returned while the rebroadcast goroutine was inside SingleAddressStore.BroadcastedSets", runNo), nil)
 		default:
 		}
 		rec.emit(Event{Op: "ThDone", P: "t1"})
@@ -112,6 +125,12 @@ func walletRun(rng *rand.Rand, res *hx.Result, runNo int) ([]Event, error) {
 	case <-time.After(closeDeadline):
 		res.Mismatch("driver:wallet:close-hangs", fmt.Sprintf("wallet run %d (mode %d): Close did not return", runNo, mode), nil)
 		return nil, fmt.Errorf("close hangs")
+	}
+	select {
+	case <-closed2:
+	case <-time.After(closeDeadline):
+		res.Mismatch("driver:wallet:second-close-hangs", fmt.Sprintf("wallet run %d: the second Close did not return", runNo), nil)
+		return nil, fmt.Errorf("second close hangs")
 	}
 	// nothing in the background after Close, even when the chain moves
 	before := ws.numCalls()
